@@ -222,7 +222,7 @@ func (g *GRU) String() string {
 
 // extractXt extracts the value of x for timestep t.
 func (g *GRU) extractXt(X tensor.Tensor, t int) (tensor.Tensor, error) {
-	return X.Slice(ops.NewSlicer(t, t+1), nil, nil)
+	return ops.ExtractTimeStep(X, t)
 }
 
 func (g *GRU) gateCalculation(
